@@ -271,6 +271,12 @@ def run_case(case) -> Outcome:
             e = ent[op["e"] % len(ent)]
             index, sub, name, pname, top, dt = e
             tag = f"mode {mode} thread {t} node {threads[t]['node']} op {k} {index:04x}:{sub:02x} via {op['path']}"
+            if mode == "inline" and op.get("stale"):
+                # responses nobody is waiting for arrive on this client's channel while it is idle (what a
+                # node scan or another master's read of object 0x1000 leaves behind): unrelated traffic
+                for j in range(op["stale"]):
+                    hub.inject(Frame(0x580 + threads[t]["node"],
+                                     bytes([0x43, 0x00, 0x10, 0x00, 0x91 + j, 0x01, 0x0F, 0x00])))
             if op.get("partial") is not None:
                 # an upload through the stream interface that the caller does not read to the end
                 if (index, sub) in last:
@@ -512,6 +518,8 @@ def case_strategy(draw, modes):
             dt = ent[e][5]
             ops.append({"e": e, "path": draw(st.sampled_from(["index", "name", "dotted", "sub", "member"])),
                         "v": draw(value_strategy(dt))})
+            if mode == "inline" and draw(st.integers(0, 4)) == 0:
+                ops[-1]["stale"] = draw(st.integers(1, 3))
             if draw(st.integers(0, 5)) == 0:
                 # abandon an upload of something written before, half-way
                 prev = draw(st.sampled_from(ops))
@@ -567,6 +575,9 @@ def enum_cases(thorough):
             vals = [b"", b"\x00", b"\x01\x02\x03\x04", b"\x01\x02\x03\x04\x05", bytes(range(7)), bytes(range(8)),
                     bytes(200), bytes([255] * 199)]
         for k, p in enumerate(paths):
+            if k == 0:
+                yield {"od": od, "mode": "inline",
+                       "threads": [{"node": 7, "ops": [{"e": e, "path": p, "v": v, "stale": j % 4} for j, v in enumerate(vals)]}]}
             yield {"od": od, "mode": "inline", "threads": [{"node": 7, "ops": [{"e": e, "path": p, "v": v} for v in vals]}],
                    "od_source": "eds" if (k + e) % 2 else "code"}
     # several members of one record / several objects written one after the other, then re-read
